@@ -19,15 +19,23 @@ import os
 
 # ---- content alphabets ---------------------------------------------------------------------------
 NARROW = "abcxyz-.0A"
-WIDE = "\u4e16\u754c\u3042\U0001F600\U0001F63D\uff21"          # CJK, kana, emoji, fullwidth A
-ZERO = "\u0301\u200b\u200d\u0300"                              # combining marks, ZWSP, ZWJ
+WIDE = "\u4e16\u754c\u3042\U0001F600\U0001F63D\uff21\uac00\U0001F469"   # CJK, kana, emoji, fullwidth A, Hangul syllable
+ZERO = "\u0301\u200b\u200d\u0300\ufe0f"                        # combining marks, ZWSP, ZWJ, VS16
 SPACE = " "
 WIDE_SPACE = "\u3000"
+# audit-1: narrow non-ASCII blanks (NBSP, EN SPACE, MEDIUM MATHEMATICAL SPACE), narrow non-ASCII characters (precomposed, Thai
+# SARA AM, a regional indicator, soft hyphen), Hangul (wide), a variation selector (zero width)
+UNI_SPACE = "\u00a0\u2002\u205f"
+NARROW_UNI = "\u00e9\u0e33\U0001F1EF\u00ad"
 BOXES = ["ASCII", "ASCII2", "ASCII_DOUBLE_HEAD", "SQUARE", "SQUARE_DOUBLE_HEAD", "MINIMAL", "MINIMAL_HEAVY_HEAD",
          "MINIMAL_DOUBLE_HEAD", "SIMPLE", "SIMPLE_HEAD", "SIMPLE_HEAVY", "HORIZONTALS", "ROUNDED", "HEAVY",
          "HEAVY_EDGE", "HEAVY_HEAD", "DOUBLE", "DOUBLE_EDGE"]
-CANON = {(0, 1): "a", (0, 2): "\u4e16", (0, 0): "\u0301", (1, 1): " ", (1, 2): "\u3000", (2, 0): "\n", (3, 0): "\t"}
-_LINE_BOUNDARIES = set("\r\x0b\x0c\x1c\x1d\x1e\x85\u2028\u2029")
+CANON = {(0, 1): "a", (0, 2): "\u4e16", (0, 0): "\u0301", (1, 1): " ", (1, 2): "\u3000", (2, 0): "\n", (3, 0): "\t", (1, 0): "\x1c"}
+# characters Text removes when it is constructed (strip_control_codes): a recipe never contains them (class 4 if it did)
+_LINE_BOUNDARIES = set("\r\x0b\x0c")
+# audit-1: characters str.splitlines() treats as line boundaries but Rich does not (Text.split("\n"), Text.wrap): they are
+# white space (str.isspace(), re \s) of zero width INSIDE a line - class 1 like any other blank, width from the tree under test
+SPLITLINES_ONLY = "\x1c\x1d\x1e\x85\u2028\u2029"
 
 
 def _cw():
@@ -36,7 +44,7 @@ def _cw():
 
 
 def project_text(s):
-    """str -> [[class, width]] (Layout.tla: 0 char, 1 space, 2 newline, 3 tab, 4 other line boundary)"""
+    """str -> [[class, width]] (Layout.tla: 0 char, 1 space, 2 newline, 3 tab, 4 removed by Text)"""
     cw = _cw()
     out = []
     for ch in s:
@@ -87,6 +95,12 @@ def rand_text(rng, maxlen=12, newlines=True, tabs=True):
             out.append("\t")
         elif p < 0.235:
             out.append(WIDE_SPACE)
+        elif p < 0.245:
+            out.append(rng.choice(UNI_SPACE))
+        elif p < 0.26:
+            out.append(rng.choice(SPLITLINES_ONLY))
+        elif p < 0.275 and style != "ascii":
+            out.append(rng.choice(NARROW_UNI))
         elif style == "ascii":
             out.append(rng.choice(NARROW))
         elif style == "wide":
@@ -104,7 +118,7 @@ def rand_title(rng):
     return s or rng.choice(["t", "\u4e16", "ab"])
 
 
-def mk_txt(rng, cropped, maxlen=12):
+def mk_txt(rng, cropped, maxlen=12, hist_p=0.06):
     s = rand_text(rng, maxlen)
     t = dict(k="txt", ov="none", nw=False, src="text", jus="none")
     set_text(t, s)
@@ -113,7 +127,7 @@ def mk_txt(rng, cropped, maxlen=12):
         t["src"] = "str"
     else:
         t["ov"] = rng.choice(["none", "fold", "fold", "crop", "ellipsis"])
-        t["jus"] = rng.choice(["none", "none", "left", "center", "right", "full"])
+        t["jus"] = rng.choice(["none", "none", "left", "center", "right", "full", "default"])
         q = rng.random()
         if cropped and q < 0.10:
             t["ov"] = "ignore"
@@ -121,6 +135,95 @@ def mk_txt(rng, cropped, maxlen=12):
             t["nw"] = True
         elif not cropped and q < 0.015:
             t["ov"] = "ignore"          # outside the quantifier on purpose (exercises InScope)
+        # audit-1 (all optional recipe fields): style spans (a rendered line is then several segments: the cropping /
+        # padding code paths that walk a line segment by segment), a base style, the text's own tab size and `end`
+        if s and rng.random() < 0.3:
+            n = len(s)
+            sp = []
+            for _ in range(rng.choice([1, 1, 2, 3, 5])):
+                a = rng.randint(0, n)
+                b = rng.choice([a, a + 1, rng.randint(a, n), n, n + 3])
+                sp.append([a, b, rng.choice(SPAN_STYLES)])
+            t["sp"] = sp
+        if rng.random() < 0.08:
+            t["st"] = rng.choice(SPAN_STYLES)
+        if rng.random() < (0.5 if "\t" in s else 0.02):
+            t["tab"] = rng.choice([1, 2, 3, 4, 8])
+        if cropped and rng.random() < (0.12 if (t["ov"] == "ignore" or t["nw"]) else 0.04):
+            t["end"] = rng.choice(["none", "sp"])   # Layout.tla C10: only beneath a cropping container
+        if s and rng.random() < hist_p:
+            t["pre"] = gen_history(rng, s)
+    return t
+
+
+def gen_history(rng, s):
+    """audit-1: object reuse.  The Text is built from s0, measured and rendered, then edited IN PLACE through its public methods
+    (measured and rendered again after every edit); the object the recipe stands for is the edited one - its content (`s`, `cs`)
+    is read back from the object when it is built (an observation; the edits themselves are C05's subject)."""
+    n = len(s)
+    ops = []
+    for _ in range(rng.choice([1, 1, 2, 3])):
+        q = rng.randrange(12)
+        if q <= 2:
+            ops.append(["right_crop", rng.randint(1, max(1, n))])
+        elif q == 3:
+            ops.append(["set_length", rng.randint(0, n + 3)])
+        elif q == 4:
+            ops.append(["rstrip"])
+        elif q == 5:
+            ops.append(["rstrip_end", rng.randint(0, n)])
+        elif q == 6:
+            ops.append(["truncate", rng.randint(1, n + 2), rng.choice(["crop", "ellipsis", "fold"]), rng.random() < 0.3])
+        elif q == 7:
+            ops.append(["append", rng.choice(["x", " yz", "\u4e16", "\nq"])])
+        elif q == 8:
+            ops.append([rng.choice(["pad_left", "pad_right", "pad"]), rng.randint(1, 3)])
+        elif q == 9:
+            ops.append(["plain", rand_text(rng, 6) or "p"])
+        elif q == 10:
+            ops.append(["expand_tabs"])
+        else:
+            ops.append(["align", rng.choice(["left", "center", "right"]), rng.randint(1, n + 4)])
+    return dict(s0=[ord(c) for c in s], ops=ops)
+
+
+def apply_history(env, obj, ops):
+    """measure + render, then every edit followed by measure + render (anything a Text caches must follow the edits)"""
+    c = env.console(80)
+    narrow = c.options.update(width=5)
+
+    def touch():
+        try:
+            env.Measurement.get(c, obj)
+            env.Measurement.get(c, obj, 3)
+            list(c.render(obj, narrow))
+            list(c.render(obj, c.options))
+        except Exception:
+            pass
+    touch()
+    for op in ops:
+        name, args = op[0], op[1:]
+        try:
+            if name == "plain":
+                obj.plain = args[0]
+            elif name == "truncate":
+                obj.truncate(args[0], overflow=args[1], pad=args[2])
+            else:
+                getattr(obj, name)(*args)
+        except Exception:                   # an edit that raises is C05's / C14's subject; the object stays as it is
+            pass
+        touch()
+
+
+SPAN_STYLES = ["bold", "red", "italic on blue", "underline", "not bold", "dim", "reverse"]
+_TEXT_ONLY = ("sp", "st", "tab", "end", "pre")
+
+
+def _as_str(t):
+    """turn a text recipe into the `str` form (a plain Python string has no options of its own)"""
+    t.update(src="str", ov="none", nw=False, jus="none")
+    for f in _TEXT_ONLY:
+        t.pop(f, None)
     return t
 
 
@@ -128,7 +231,78 @@ def _pad(rng, big=3):
     return rng.choice([0, 0, 1, 1, 2, big])
 
 
-def gen(rng, depth, cropped=False, top=True):
+ENV_DEFAULT = dict(via="console", cwd=0, asc=False, legacy=False, safe=True, color="none", ojus="none", oov="none", onw=False,
+                   tab=8, hl=True, prt=False)
+
+
+def gen_env(rng, bars=False, pr=False):
+    """audit-1: the console / ConsoleOptions a recipe is rendered under (optional root field `env`; every field has the
+    default of ENV_DEFAULT).  via: how the W cells are made available - a console of that width | a wider console and
+    options.update(width=W) (what Console.print(width=) does: min_width = max_width = W) | options.update(max_width=W);
+    asc / legacy / safe: ascii-only encoding, legacy_windows, Console(safe_box=); color: colour system (bars draw their
+    remainder only with colour; "nocolor" = NO_COLOR on a truecolor console); ojus / oov / onw: justify / overflow / no_wrap
+    handed in through the options (Console.print(justify=, overflow=, no_wrap=)); tab: Console(tab_size=); hl: Console(highlight=);
+    prt: the recipe is shown with Console.print(...) on a console of width W and the printed lines are observed - print crops to
+    the console width (Segment.split_and_crop_lines(pad=False)), so the console is a cropping container around the root and
+    overflow="ignore" / no_wrap leaves are in scope at top level (Layout!RootCropped)."""
+    e = dict(ENV_DEFAULT)
+    if pr:
+        e["prt"] = True
+    elif rng.random() < 0.45:
+        e["via"] = rng.choice(["update_width", "update_max"])
+        e["cwd"] = rng.choice([1, 2, 7, 40, 150])
+    if rng.random() < (0.3 if bars else 0.2):
+        e["asc"] = True
+    if rng.random() < (0.3 if bars else 0.2):
+        e["legacy"] = True
+    if rng.random() < 0.15:
+        e["safe"] = False
+    if rng.random() < (0.75 if bars else 0.3):       # bars draw their remainder only with colour
+        e["color"] = rng.choice(["truecolor", "truecolor", "standard", "nocolor"])
+    if rng.random() < 0.25:
+        e["ojus"] = rng.choice(["default", "left", "center", "right", "full"])
+    if rng.random() < 0.25:
+        e["oov"] = rng.choice(["fold", "crop", "ellipsis", "ellipsis", "ignore"])
+    if rng.random() < 0.1:
+        e["onw"] = True
+    if rng.random() < 0.15:
+        e["tab"] = rng.choice([1, 2, 3, 4])
+    if rng.random() < 0.15:
+        e["hl"] = False
+    return e
+
+
+def env_of(tree):
+    e = tree.get("env")
+    if not e:
+        return None
+    return dict(ENV_DEFAULT, **e)
+
+
+def env_is_default(e):
+    return not e or all(e.get(k, v) == v for k, v in ENV_DEFAULT.items() if k != "cwd")
+
+
+def _maybe_sty(rng, t, names, p=0.1):
+    """style options given as strings (the `sty` field C14's stress also uses): they never change a layout, but styled
+    padding / borders are separate segments"""
+    if rng.random() < p:
+        t["sty"] = {n: rng.choice(["on blue", "bold", "red", "dim"]) for n in names if rng.random() < 0.7}
+
+
+def gen(rng, depth, cropped=False, top=True, env_p=0.5):
+    """random abstract tree with Nesting <= depth; a top-level tree carries a console / options environment (`env`) with
+    probability env_p"""
+    pr = top and env_p > 0 and rng.random() < 0.15
+    t = _gen(rng, depth, cropped or pr, top)
+    if pr or (top and rng.random() < env_p):
+        e = gen_env(rng, _has_bar(t), pr)
+        if not env_is_default(e):
+            t["env"] = e
+    return t
+
+
+def _gen(rng, depth, cropped=False, top=True):
     """random abstract tree with Nesting <= depth"""
     leafp = 0.25 if top else 0.45
     if depth <= 0 or rng.random() < leafp:
@@ -139,12 +313,19 @@ def gen(rng, depth, cropped=False, top=True):
             t = dict(k="rule", al=rng.choice(["left", "center", "right"]))
             set_text(t, rand_title(rng) if rng.random() < 0.55 else "", "ts", "title")
             set_text(t, rng.choice(["─", "─", "-", "世", "=-", "á", "━世"]), "chs", "chars")
+            if t["title"] and rng.random() < 0.3:
+                t["tt"] = True              # the title is a Text object
+            _maybe_sty(rng, t, ("style",))
             return t
         if r < 0.93:
             b, e = sorted([rng.choice([0, 0, 10, 33.3, 50, 99, 100]), rng.choice([0, 10, 50, 66.6, 100, 100])])
-            return dict(k="bar", w=rng.choice([0, 0, 0, 1, 3, 10, 40]), size=100, begin=b, end=e)
-        return dict(k="progressbar", w=rng.choice([0, 0, 0, 1, 3, 10, 40]), total=rng.choice([100, 100, 7, 0]),
-                    completed=rng.choice([0, 3, 50, 100, 100, 250]), pulse=rng.random() < 0.2)
+            size = rng.choice([100, 100, 100, 1, 7])
+            return dict(k="bar", w=rng.choice([0, 0, 0, 1, 3, 10, 40]), size=size, begin=b * size / 100, end=e * size / 100)
+        t = dict(k="progressbar", w=rng.choice([0, 0, 0, 1, 3, 10, 40]), total=rng.choice([100, 100, 7, 0]),
+                 completed=rng.choice([0, 1, 3, 33, 50, 99, 100, 100, 250]), pulse=rng.random() < 0.2)
+        if t["pulse"]:
+            t["at"] = rng.choice([0.0, 0.0, 0.33, 1.234, 77.7])
+        return t
     d = depth - 1
     kind = rng.choice(["panel", "panel", "padding", "align", "constrain", "styled", "wrap2", "group", "group",
                        "table", "table", "table", "columns", "tree", "tree"])
@@ -158,11 +339,26 @@ def gen(rng, depth, cropped=False, top=True):
         if rng.random() < 0.15:
             m = minw_py(t)
             t["w"] = max(1, m + rng.choice([0, 0, 1, 2, 5, 20]) - (rng.random() < 0.15) * rng.randint(1, 3))
+        # audit-1: title as a Text object, safe_box, Panel.fit, the 1/2-value padding forms, style options
+        if t["title"] and rng.random() < 0.3:
+            t["tt"] = True
+            if rng.random() < 0.6:
+                t["ttj"] = rng.choice(["left", "center", "right", "full"])
+        if rng.random() < 0.2:
+            t["sb"] = rng.choice([True, False])
+        if not t["ex"] and rng.random() < 0.3:
+            t["fitcm"] = True
+        t["form"] = rng.choice([4, 4, 2, 1])
+        _maybe_sty(rng, t, ("style", "border_style"))
         return t
     if kind == "padding":
         c = gen(rng, d, True, False)
-        return dict(k="padding", c=c, pl=_pad(rng, 5), pr=_pad(rng, 5), pt=rng.choice([0, 0, 1]), pb=rng.choice([0, 0, 1]),
-                    ex=rng.random() < 0.6, form=rng.choice([4, 4, 2, 1]))
+        t = dict(k="padding", c=c, pl=_pad(rng, 5), pr=_pad(rng, 5), pt=rng.choice([0, 0, 1]), pb=rng.choice([0, 0, 1]),
+                 ex=rng.random() < 0.6, form=rng.choice([4, 4, 2, 1]))
+        if rng.random() < 0.08:             # Padding.indent(renderable, level)
+            t.update(pr=0, pt=0, pb=0, ex=False, form="indent")
+        _maybe_sty(rng, t, ("style",))
+        return t
     if kind in ("align", "constrain"):
         c = gen(rng, d, cropped, False)
         t = dict(k=kind, c=c, w=0)
@@ -171,36 +367,50 @@ def gen(rng, depth, cropped=False, top=True):
         if rng.random() < (0.35 if kind == "align" else 0.85):
             m = minw_py(c)
             t["w"] = max(1, m + rng.choice([0, 0, 1, 2, 5, 20, 60]) - (rng.random() < 0.1) * rng.randint(1, 3))
+        if kind == "align":
+            if rng.random() < 0.25:
+                t["cm"] = True              # the classmethods Align.left / Align.center / Align.right
+            _maybe_sty(rng, t, ("style",))
         return t
     if kind in ("styled", "wrap2"):
-        c = gen(rng, d, cropped, False)
         k = "styled" if kind == "styled" else rng.choice(["opaque", "cast"])
+        vc = k == "styled" and rng.random() < 0.3
+        c = gen(rng, d, cropped or vc, False)
         if k == "cast" and c["k"] == "cast":
             k = "opaque"                # __rich__ returning another __rich__ object is not supported by Console.render
-        return dict(k=k, c=c)
+        t = dict(k=k, c=c)
+        if vc:
+            t["impl"] = "vcenter"       # rich.align.VerticalCenter: a built-in wrapper, transparent for the width, that crops (render_lines)
+        return t
     if kind == "group":
-        return dict(k="group", ch=[gen(rng, d, cropped, False) for _ in range(rng.choice([1, 2, 2, 3]))],
-                    fit=rng.random() < 0.8)
+        t = dict(k="group", ch=[gen(rng, d, cropped, False) for _ in range(rng.choice([1, 2, 2, 3] * 5 + [0]))],     # audit-1: also an empty group
+                 fit=rng.random() < 0.8)
+        if rng.random() < 0.2:
+            t["impl"] = "renderables"   # rich.containers.Renderables: the other built-in group
+        return t
     if kind == "table":
-        nc = rng.choice([1, 1, 2, 2, 3, 4])
-        nr = rng.choice([0, 1, 1, 2, 2, 3])
+        nc = rng.choice([1, 1, 2, 2, 3, 4] * 4 + [5, 6])
+        nr = rng.choice([0, 1, 1, 2, 2, 3] * 4 + [5, 8])
         cols = []
         for _ in range(nc):
             hdr = mk_txt(rng, True, 8)
             ftr = mk_txt(rng, True, 6)
             if rng.random() < 0.8:
-                hdr.update(src="str", ov="none", nw=False, jus="none")
+                _as_str(hdr)
+            elif rng.random() < 0.3:        # audit-1: a header may be any renderable
+                hdr = gen(rng, min(d, 1), True, False)
             if rng.random() < 0.8:
-                ftr.update(src="str", ov="none", nw=False, jus="none")
+                _as_str(ftr)
             col = dict(hdr=hdr, ftr=ftr, w=0, minw=0, maxw=0, ratio=0, nw=False,
-                       jus=rng.choice(["left", "left", "center", "right", "full"]),
-                       ov=rng.choice(["ellipsis", "ellipsis", "fold", "crop"]))
+                       jus=rng.choice(["left", "left", "center", "right", "full", "default"]),
+                       ov=rng.choice(["ellipsis", "ellipsis", "fold", "crop", "ignore"]))   # audit-1: "default", "ignore" (cells are cropped)
             if rng.random() < 0.2:
                 col["maxw"] = rng.randint(1, 8)
             if rng.random() < 0.3:
                 col["ratio"] = rng.randint(1, 3)
             cols.append(col)
-        rows = [[gen(rng, d if rng.random() < 0.35 else 0, True, False) for _ in range(nc)] for _ in range(nr)]
+        small = nc * nr > 12
+        rows = [[gen(rng, d if (rng.random() < 0.35 and not small) else 0, True, False) for _ in range(nc)] for _ in range(nr)]
         t = dict(k="table", cols=cols, rows=rows, box=rng.choice(["none", "none"] + BOXES), edge=rng.random() < 0.75,
                  lines=rng.random() < 0.25, leading=rng.choice([0, 0, 0, 0, 1, 2, 3]), sh=rng.random() < 0.7,
                  sf=rng.random() < 0.3, pl=_pad(rng), pr=_pad(rng), pt=rng.choice([0, 0, 0, 1]), pb=rng.choice([0, 0, 0, 1]),
@@ -210,6 +420,33 @@ def gen(rng, depth, cropped=False, top=True):
             t["pl"], t["pr"] = rng.choice([(1, 1), (0, 0), (0, 1)])
         set_text(t, rand_title(rng) if rng.random() < 0.3 else "", "ts", "title")
         set_text(t, rand_title(rng) if rng.random() < 0.2 else "", "cps", "caption")
+        # audit-1 (optional recipe fields): padding given as int / 2-tuple, caption_justify, safe_box, highlight, columns handed to
+        # the constructor (str headers or Column objects), rows shorter than the table / None cells, end_section on any row,
+        # Table.grid(), title as Text, style options
+        t["form"] = rng.choice([4, 4, 2, 1])
+        t["cj"] = rng.choice(["left", "center", "right"])
+        if rng.random() < 0.2:
+            t["sb"] = rng.choice([True, False])
+        if rng.random() < 0.15:
+            t["hl"] = True
+        if rng.random() < 0.25:
+            t["hvia"] = "column" if rng.random() < 0.6 or any(c["hdr"].get("src") != "str" for c in cols) else "ctor"
+        if nr and nc > 1 and rng.random() < 0.15:
+            for row in rows[:rng.randint(1, nr)]:
+                j = rng.randrange(nc)
+                for jj in (range(j, nc) if rng.random() < 0.6 else [j]):
+                    row[jj] = dict(_leaf(""), omit=True)
+        if nr > 1 and rng.random() < 0.15:
+            t["endrows"] = sorted(set(rng.randrange(nr) for _ in range(rng.randint(1, 3))))
+        if rng.random() < 0.08:
+            t.update(grid=True, box="none", sh=False, sf=False, edge=False)
+            set_text(t, "", "ts", "title")
+            set_text(t, "", "cps", "caption")
+        if t["title"] and rng.random() < 0.3:
+            t["tt"] = True
+            if rng.random() < 0.5:
+                t["ttj"] = rng.choice(["left", "center", "right", "full"])
+        _maybe_sty(rng, t, ("style", "border_style", "header_style", "footer_style", "title_style", "caption_style", "row_styles"))
         if rng.random() < 0.04:          # not free to wrap: outside the quantifier on purpose
             q = rng.randrange(5)
             if q == 0:
@@ -232,16 +469,131 @@ def gen(rng, depth, cropped=False, top=True):
         set_text(t, rand_title(rng) if rng.random() < 0.25 else "", "ts", "title")
         if rng.random() < 0.03:
             t["w"] = rng.randint(1, 12)  # fixed-width columns: outside the quantifier on purpose
+        # audit-1: padding forms, items added with add_renderable, title as Text
+        t["form"] = rng.choice([4, 4, 2, 1])
+        if rng.random() < 0.2:
+            t["addr"] = True
+        if t["title"] and rng.random() < 0.3:
+            t["tt"] = True
         return t
     if kind == "tree":
         def node(level):
             n = dict(k="tree", label=gen(rng, d if rng.random() < 0.4 else 0, True, False), exp=rng.random() < 0.85,
                      gs=rng.choice(["", "", "bold", "underline2"]), ch=[])
+            if rng.random() < 0.15:
+                n["tst"] = rng.choice(["green", "on blue", "bold"])       # audit-1: Tree(style=) / add(style=)
+            if rng.random() < 0.1:
+                n["hl"] = True
             if level < 3:
                 n["ch"] = [node(level + 1) for _ in range(rng.choice([0, 0, 1, 2, 3] if level else [0, 1, 2, 3]))]
             return n
         return node(0)
     raise AssertionError(kind)
+
+
+# ---- hand-listed boundary recipes: every kind of renderable x every environment preset (audit-1) ----------------------
+def _env(**kw):
+    return dict(ENV_DEFAULT, **kw)
+
+
+ENV_PRESETS = ([_env(via=v, cwd=c) for v in ("update_width", "update_max") for c in (1, 60)]
+               + [_env(asc=True), _env(legacy=True), _env(legacy=True, safe=False), _env(asc=True, legacy=True)]
+               + [_env(color=c) for c in ("truecolor", "standard", "nocolor")]
+               + [_env(asc=True, color="truecolor"), _env(legacy=True, color="standard"), _env(via="update_max", cwd=9, asc=True, color="truecolor")]
+               + [_env(ojus=j) for j in ("default", "left", "center", "right", "full")]
+               + [_env(oov=o) for o in ("fold", "crop", "ellipsis", "ignore")]
+               + [_env(onw=True), _env(tab=1), _env(tab=4), _env(hl=False), _env(oov="ellipsis", ojus="right", via="update_width", cwd=3)]
+               + [_env(prt=True), _env(prt=True, oov="ignore"), _env(prt=True, onw=True, ojus="center"), _env(prt=True, color="truecolor", asc=True)])
+ENV_PRESETS_FEW = [_env(via="update_width", cwd=60), _env(via="update_max", cwd=1), _env(asc=True), _env(legacy=True), _env(color="truecolor"),
+                   _env(ojus="right"), _env(ojus="full"), _env(oov="crop"), _env(oov="ellipsis"), _env(oov="ignore"), _env(onw=True),
+                   _env(prt=True), _env(prt=True, oov="ignore")]
+
+
+def boundary_trees():
+    """small canonical recipes of every kind, each under every environment preset (leaf kinds: all presets; containers: the
+    presets that reach a container's arithmetic)"""
+    def T(s, **kw):
+        t = _leaf(s)
+        t.update(kw)
+        return t
+
+    def rule(title, chars, al="center", **kw):
+        t = dict(k="rule", al=al, **kw)
+        set_text(t, title, "ts", "title")
+        set_text(t, chars, "chs", "chars")
+        return t
+
+    def titled(t, title, key_s="ts", key_cs="title"):
+        set_text(t, title, key_s, key_cs)
+        return t
+    words = "ab cde \u4e16\u754c fgh\u0301 x"
+    leaves = [dict(k="progressbar", w=0, total=100, completed=c, pulse=False) for c in (0, 1, 33, 99, 100, 250)]
+    leaves += [dict(k="progressbar", w=0, total=100, completed=40, pulse=True, at=a) for a in (0.0, 0.33)]
+    leaves += [dict(k="progressbar", w=6, total=7, completed=3, pulse=False), dict(k="progressbar", w=0, total=0, completed=0, pulse=False)]
+    leaves += [dict(k="bar", w=0, size=100, begin=b, end=e) for b, e in ((0, 100), (10, 60), (33.3, 66.6), (0, 0), (99, 100))]
+    leaves += [dict(k="bar", w=5, size=7, begin=1, end=6)]
+    leaves += [rule("", "\u2500"), rule("", "\u4e16"), rule("", "=-"), rule("t", "\u2500"), rule("a\u4e16b", "\u2501\u4e16", "left"),
+               rule("two words", "-", "right"), rule("Title", "\u2500", "center", tt=True)]
+    leaves += [T(words), T(words, src="str"), T("a\tb\tc\u4e16", tab=3), T(words, jus="full"), T(words, ov="ellipsis", jus="center"),
+               T("abcdefghij klm", sp=[[0, 3, "bold"], [2, 12, "red"], [5, 5, "dim"]], ov="crop"),
+               T("aaa\x1cbbb"), T("ab\u2028cd ef\x85gh\nij\x1ekl\u2029\u4e16", src="str"), T("a\u00a0b\u2002c d")]
+    inner = T(words)
+    loose = T("abcdefghijklmnop \u4e16\u754c\u4e16\u754c", ov="ignore", sp=[[2, 9, "bold"], [4, 30, "red"]])
+    boxes = []
+    for c in (inner, loose):
+        boxes.append(titled(dict(k="panel", c=c, pl=1, pr=1, pt=0, pb=0, w=0, ex=True, ta="center", box="ROUNDED"), "T\u4e16"))
+        boxes.append(titled(dict(k="panel", c=c, pl=0, pr=2, pt=0, pb=0, w=0, ex=False, ta="left", box="HEAVY", fitcm=True, sb=False), ""))
+        boxes.append(dict(k="padding", c=c, pl=2, pr=1, pt=0, pb=0, ex=True, form=4))
+        boxes.append(dict(k="padding", c=c, pl=3, pr=0, pt=0, pb=0, ex=False, form="indent"))
+    for j in ("left", "center", "right", "full"):
+        boxes.append(titled(dict(k="panel", c=inner, pl=0, pr=0, pt=0, pb=0, w=0, ex=j != "right", ta="center", box="SQUARE", tt=True, ttj=j), "Ti"))
+    boxes.append(dict(k="align", c=inner, w=0, al="center", pad=True))
+    boxes.append(dict(k="align", c=inner, w=9, al="right", pad=False, cm=True))
+    boxes.append(dict(k="constrain", c=inner, w=7))
+    boxes.append(dict(k="styled", c=inner, impl="vcenter"))
+    boxes.append(dict(k="styled", c=inner))
+    boxes.append(dict(k="group", ch=[inner, rule("r", "-")], fit=True, impl="renderables"))
+    boxes.append(dict(k="group", ch=[inner, dict(k="bar", w=0, size=100, begin=10, end=60)], fit=False))
+
+    def col(h, **kw):
+        c = dict(hdr=T(h, src="str"), ftr=T("f", src="str"), w=0, minw=0, maxw=0, ratio=0, nw=False, jus="left", ov="fold")
+        c.update(kw)
+        return c
+    for opts in (dict(box="SQUARE", edge=True, pl=1, pr=1, pe=True, cp=False, ex=False),
+                 dict(box="none", edge=True, pl=0, pr=2, pe=False, cp=True, ex=True),
+                 dict(box="ROUNDED", edge=False, pl=0, pr=0, pe=True, cp=False, ex=True, hvia="column", form=2)):
+        t = dict(k="table", cols=[col("h\u4e16", ratio=1), col("header two", ov="ignore", jus="default"), col("c", maxw=4, ov="ellipsis")],
+                 rows=[[T(words), loose, T("x")], [T("y\nz"), dict(_leaf(""), omit=True), dict(_leaf(""), omit=True)]],
+                 lines=False, leading=0, sh=True, sf=True, pt=0, pb=0, w=0, minw=0, tj="center", endsec=False, endrows=[0])
+        t.update(opts)
+        titled(t, "table title \u4e16", "ts", "title")
+        titled(t, "cap", "cps", "caption")
+        boxes.append(t)
+    g = dict(k="table", cols=[col("", ov="crop"), col("", ratio=2)], rows=[[T(words), T("\u4e16\u754c ab")]], box="none", edge=False, lines=False,
+             leading=0, sh=False, sf=False, pl=0, pr=1, pt=0, pb=0, pe=False, cp=True, ex=True, w=0, minw=0, tj="center", endsec=False, grid=True)
+    titled(g, "", "ts", "title")
+    titled(g, "", "cps", "caption")
+    boxes.append(g)
+    for kw in (dict(ex=False, eq=False, cf=False, rtl=False, al="none"), dict(ex=True, eq=True, cf=True, rtl=True, al="center", addr=True, form=2)):
+        c = dict(k="columns", ch=[T("ab cd"), T("\u4e16\u754c"), T("efghij"), loose], w=0, pl=1, pr=1, pt=0, pb=0)
+        c.update(kw)
+        boxes.append(titled(c, "Col\u4e16"))
+    boxes.append(dict(k="tree", label=T("root \u4e16"), exp=True, gs="", ch=[
+        dict(k="tree", label=inner, exp=True, gs="bold", tst="green", ch=[dict(k="tree", label=loose, exp=True, gs="underline2", ch=[])]),
+        dict(k="tree", label=T("leaf"), exp=False, gs="", ch=[dict(k="tree", label=T("hidden"), exp=True, gs="", ch=[])])]))
+    out = []
+    for t in leaves:
+        out.append(_clone(t))
+        out += [dict(_clone(t), env=dict(e)) for e in ENV_PRESETS]
+    for t in boxes:
+        out.append(_clone(t))
+        out += [dict(_clone(t), env=dict(e)) for e in ENV_PRESETS_FEW]
+    # the witness of the open finding "ProgressBar emits no line break" (known_findings.json), plain and with colour: always present
+    pb = dict(k="group", ch=[dict(k="progressbar", w=0, total=100, completed=100, pulse=False), T("a")], fit=True)
+    out += [_clone(pb), dict(_clone(pb), env=_env(color="truecolor"))]
+    for t in out:
+        complete(t)
+    return out
 
 
 # ---- Python mirror of Layout!MinW / InScope (width selection only) ---------------------------------
@@ -304,29 +656,40 @@ def minw_py(t):
     return 1
 
 
-def inscope_py(t, cropped=False):
+def inscope_py(t, cropped=False, e=None):
+    """mirror of Layout!ScopeE (e = the options-level overflow / no_wrap of the root's environment, see gen_env)"""
     k = t["k"]
+    if e is None:
+        ev = env_of(t) or ENV_DEFAULT
+        e = (ev["oov"] == "ignore", bool(ev["onw"]))
+        cropped = cropped or bool(ev["prt"])
+    loose_opts = e[0] or e[1]
     if k == "txt":
-        return cropped or not (t["ov"] == "ignore" or t["nw"])
+        loose = (t["ov"] == "ignore" or (t["ov"] == "none" and e[0]) or t["nw"] or e[1] or t.get("end", "nl") != "nl")
+        return cropped or not loose
     if k == "panel":
-        return (t["w"] == 0 or t["w"] >= minw_py(t)) and inscope_py(t["c"], True)
+        return (t["w"] == 0 or t["w"] >= minw_py(t)) and inscope_py(t["c"], True, e)
     if k == "padding":
-        return inscope_py(t["c"], True)
+        return inscope_py(t["c"], True, e)
     if k in ("align", "constrain"):
-        return (t["w"] == 0 or t["w"] >= minw_py(t["c"])) and inscope_py(t["c"], cropped)
+        return (t["w"] == 0 or t["w"] >= minw_py(t["c"])) and inscope_py(t["c"], cropped, e)
     if k in ("styled", "opaque", "cast"):
-        return inscope_py(t["c"], cropped)
+        return inscope_py(t["c"], cropped or t.get("impl") == "vcenter", e)
     if k == "group":
-        return all(inscope_py(c, cropped) for c in t["ch"])
+        return all(inscope_py(c, cropped, e) for c in t["ch"])
     if k == "table":
         if t["w"] or t["minw"] or any(c["w"] or c["minw"] or c["nw"] for c in t["cols"]):
             return False
-        return (all(inscope_py(c["hdr"], True) and inscope_py(c["ftr"], True) for c in t["cols"])
-                and all(inscope_py(x, True) for r in t["rows"] for x in r))
+        if (t["title"] or t["caption"]) and loose_opts and not cropped:
+            return False
+        return (all(inscope_py(c["hdr"], True, e) and inscope_py(c["ftr"], True, e) for c in t["cols"])
+                and all(inscope_py(x, True, e) for r in t["rows"] for x in r))
     if k == "columns":
-        return t["w"] == 0 and all(inscope_py(c, True) for c in t["ch"])
+        if t["title"] and loose_opts and not cropped:
+            return False
+        return t["w"] == 0 and all(inscope_py(c, True, e) for c in t["ch"])
     if k == "tree":
-        return inscope_py(t["label"], True) and all(inscope_py(c, True) for c in t["ch"])
+        return inscope_py(t["label"], True, e) and all(inscope_py(c, True, e) for c in t["ch"])
     return True
 
 
@@ -443,19 +806,20 @@ class Env:
 
     def __init__(self):
         from rich import box as rbox
-        from rich.align import Align
+        from rich.align import Align, VerticalCenter
         from rich.bar import Bar
         from rich.cells import cell_len
         from rich.columns import Columns
         from rich.console import Console, RenderGroup
         from rich.constrain import Constrain
+        from rich.containers import Renderables
         from rich.measure import Measurement
         from rich.padding import Padding
         from rich.panel import Panel
         from rich.progress_bar import ProgressBar
         from rich.rule import Rule
         from rich.styled import Styled
-        from rich.table import Table
+        from rich.table import Column, Table
         from rich.text import Text
         from rich.tree import Tree
         self.__dict__.update(locals())
@@ -478,12 +842,47 @@ class Env:
         self._consoles = {}
         self.budget_log = None
 
-    def console(self, W):
-        c = self._consoles.get(W)
+    def console(self, W, cfg=None):
+        """console of width W; cfg (see gen_env) selects encoding / legacy_windows / safe_box / colour / tab size / highlight"""
+        if not cfg:
+            key = W
+        else:
+            key = (W, cfg["asc"], cfg["legacy"], cfg["safe"], cfg["color"], cfg["tab"], cfg["hl"], cfg["prt"])
+        c = self._consoles.get(key)
         if c is None:
-            c = self.Console(width=W, height=25, file=io.StringIO(), color_system=None, legacy_windows=False)
-            self._consoles[W] = c
+            if not cfg:
+                c = self.Console(width=W, height=25, file=io.StringIO(), color_system=None, legacy_windows=False)
+            else:
+                f = _AsciiFile() if cfg["asc"] else io.StringIO()
+                col = cfg["color"]
+                c = self.Console(width=W, height=25, file=f, color_system=None if col == "none" else ("truecolor" if col == "nocolor" else col),
+                                 legacy_windows=cfg["legacy"], safe_box=cfg["safe"], no_color=col == "nocolor", tab_size=cfg["tab"],
+                                 highlight=cfg["hl"], record=cfg["prt"])
+            self._consoles[key] = c
         return c
+
+    def console_options(self, W, cfg=None):
+        """(console, ConsoleOptions) that make exactly W cells available (options.max_width = W) the way cfg says"""
+        if not cfg:
+            c = self.console(W)
+            return c, c.options
+        via = cfg["via"]
+        if via == "console":
+            c = self.console(W, cfg)
+            o = c.options
+        else:
+            c = self.console(W + max(1, cfg["cwd"]), cfg)
+            o = c.options.update(width=W) if via == "update_width" else c.options.update(max_width=W)
+        kw = {}
+        if cfg["ojus"] != "none":
+            kw["justify"] = cfg["ojus"]
+        if cfg["oov"] != "none":
+            kw["overflow"] = cfg["oov"]
+        if cfg["onw"]:
+            kw["no_wrap"] = True
+        if kw:
+            o = o.update(**kw)
+        return c, o
 
     # -- observing the budget handed to every renderable ------------------------------------------
     def watch(self):
@@ -508,6 +907,10 @@ class Env:
             self.Console._verif_orig_render = None
 
 
+class _AsciiFile(io.StringIO):
+    encoding = "ascii"
+
+
 def _padform(t):
     top, r, b, l = t.get("pt", 0), t["pr"], t.get("pb", 0), t["pl"]
     form = t.get("form", 4)
@@ -519,9 +922,23 @@ def _padform(t):
 
 
 def _sty(t, *names):
-    """optional style options (strings, as a user writes them) - set by C14's stress only; they never change a layout"""
+    """optional style options (strings, as a user writes them) - set by C14's stress and, rarely, by gen; they never change a layout"""
     st = t.get("sty") or {}
-    return {n: st[n] for n in names if n in st}
+    out = {n: st[n] for n in names if n in st}
+    if isinstance(out.get("row_styles"), str):
+        out["row_styles"] = [out["row_styles"], ""]
+    return out
+
+
+def _title(t, env):
+    """title / caption: str, or a Text object when the recipe says so (`tt`), then possibly with a justify of its own (`ttj`:
+    9.10.0 rendered such a Panel title console-width + 4 cells wide; fixed by cb011ff)"""
+    s = text_of(t, "ts", "title")
+    if not s:
+        return None
+    if not t.get("tt"):
+        return s
+    return env.Text(s, justify=t.get("ttj") or None)
 
 
 def build(t, env, reg=None, path=()):
@@ -532,69 +949,142 @@ def build(t, env, reg=None, path=()):
         if t.get("src", "text") == "str":
             obj = "".join(s)            # a fresh str object where possible
         else:
+            kw = {}
+            if t.get("st"):
+                kw["style"] = t["st"]
+            if t.get("tab"):
+                kw["tab_size"] = t["tab"]
+            if t.get("end", "nl") != "nl":
+                kw["end"] = {"none": "", "sp": " "}[t["end"]]
+            pre = t.get("pre")
+            if pre:
+                s = "".join(map(chr, pre["s0"]))
             obj = env.Text(s, justify=None if t.get("jus", "none") == "none" else t["jus"],
                            overflow=None if t.get("ov", "none") == "none" else t["ov"],
-                           no_wrap=True if t.get("nw") else None)
+                           no_wrap=True if t.get("nw") else None, **kw)
+            for a, b, sty in t.get("sp") or ():
+                obj.stylize(sty, a, b)
+            if pre:
+                apply_history(env, obj, pre["ops"])
+                set_text(t, obj.plain)      # the recipe describes the object as it is now
     elif k == "panel":
-        obj = env.Panel(build(t["c"], env, reg, path + ("c",)), getattr(env.rbox, t.get("box", "ROUNDED")),
-                        title=text_of(t, "ts", "title") or None, title_align=t.get("ta", "center"),
-                        expand=t["ex"], width=t["w"] or None, padding=(t.get("pt", 0), t["pr"], t.get("pb", 0), t["pl"]),
-                        **_sty(t, "style", "border_style"))
+        kw = dict(title=_title(t, env), title_align=t.get("ta", "center"), width=t["w"] or None, padding=_padform(t),
+                  **_sty(t, "style", "border_style"))
+        if t.get("sb") is not None:
+            kw["safe_box"] = t["sb"]
+        child = build(t["c"], env, reg, path + ("c",))
+        if t.get("fitcm") and not t["ex"]:
+            obj = env.Panel.fit(child, getattr(env.rbox, t.get("box", "ROUNDED")), **kw)
+        else:
+            obj = env.Panel(child, getattr(env.rbox, t.get("box", "ROUNDED")), expand=t["ex"], **kw)
     elif k == "padding":
-        obj = env.Padding(build(t["c"], env, reg, path + ("c",)), _padform(t), expand=t["ex"], **_sty(t, "style"))
+        child = build(t["c"], env, reg, path + ("c",))
+        if t.get("form") == "indent" and not (t["ex"] or t["pr"] or t.get("pt", 0) or t.get("pb", 0)):
+            obj = env.Padding.indent(child, t["pl"])
+        else:
+            obj = env.Padding(child, _padform(t), expand=t["ex"], **_sty(t, "style"))
     elif k == "align":
-        obj = env.Align(build(t["c"], env, reg, path + ("c",)), t.get("al", "center"), pad=t.get("pad", True), width=t["w"] or None,
-                        **_sty(t, "style"))
+        child = build(t["c"], env, reg, path + ("c",))
+        if t.get("cm"):
+            obj = getattr(env.Align, t.get("al", "center"))(child, pad=t.get("pad", True), width=t["w"] or None, **_sty(t, "style"))
+        else:
+            obj = env.Align(child, t.get("al", "center"), pad=t.get("pad", True), width=t["w"] or None, **_sty(t, "style"))
     elif k == "constrain":
         obj = env.Constrain(build(t["c"], env, reg, path + ("c",)), t["w"] or None)
     elif k == "styled":
-        obj = env.Styled(build(t["c"], env, reg, path + ("c",)), "bold")
+        if t.get("impl") == "vcenter":
+            obj = env.VerticalCenter(build(t["c"], env, reg, path + ("c",)))
+        else:
+            obj = env.Styled(build(t["c"], env, reg, path + ("c",)), "bold")
     elif k == "opaque":
         obj = env.Opaque(build(t["c"], env, reg, path + ("c",)))
     elif k == "cast":
         obj = env.Cast(build(t["c"], env, reg, path + ("c",)))
     elif k == "group":
-        obj = env.RenderGroup(*[build(c, env, reg, path + ("ch", i)) for i, c in enumerate(t["ch"])], fit=t.get("fit", True))
+        kids = [build(c, env, reg, path + ("ch", i)) for i, c in enumerate(t["ch"])]
+        if t.get("impl") == "renderables":
+            obj = env.Renderables(kids)
+        else:
+            obj = env.RenderGroup(*kids, fit=t.get("fit", True))
     elif k == "table":
-        obj = env.Table(title=text_of(t, "ts", "title") or None, caption=text_of(t, "cps", "caption") or None,
-                        width=t["w"] or None, min_width=t["minw"] or None,
-                        box=None if t["box"] == "none" else getattr(env.rbox, t["box"]),
-                        padding=(t.get("pt", 0), t["pr"], t.get("pb", 0), t["pl"]), collapse_padding=t["cp"], pad_edge=t["pe"],
-                        expand=t.get("ex", False), show_header=t["sh"], show_footer=t["sf"], show_edge=t["edge"],
-                        show_lines=t.get("lines", False), leading=t.get("leading", 0), title_justify=t.get("tj", "center"),
-                        **_sty(t, "style", "border_style", "header_style", "footer_style", "title_style", "caption_style", "row_styles"))
+        tkw = dict(padding=_padform(t), collapse_padding=t["cp"], pad_edge=t["pe"], expand=t.get("ex", False))
+        colkw = []
         for j, col in enumerate(t["cols"]):
-            obj.add_column(build(col["hdr"], env, reg, path + ("cols", j, "hdr")), build(col["ftr"], env, reg, path + ("cols", j, "ftr")),
-                           justify=col.get("jus", "left"), overflow=col.get("ov", "ellipsis"), width=col["w"] or None,
-                           min_width=col["minw"] or None, max_width=col["maxw"] or None, ratio=0 if col.get("rz") else (col["ratio"] or None),
-                           no_wrap=col["nw"], **_sty(col, "style", "header_style", "footer_style"))
+            colkw.append(dict(justify=col.get("jus", "left"), overflow=col.get("ov", "ellipsis"), width=col["w"] or None,
+                              min_width=col["minw"] or None, max_width=col["maxw"] or None, ratio=0 if col.get("rz") else (col["ratio"] or None),
+                              no_wrap=col["nw"], **_sty(col, "style", "header_style", "footer_style")))
+        hdrs = [build(col["hdr"], env, reg, path + ("cols", j, "hdr")) for j, col in enumerate(t["cols"])]
+        ftrs = [build(col["ftr"], env, reg, path + ("cols", j, "ftr")) for j, col in enumerate(t["cols"])]
+        hvia = "add" if t.get("grid") else t.get("hvia", "add")      # Table.grid() takes no headers
+        if hvia == "ctor" and not all(isinstance(h, str) for h in hdrs):
+            hvia = "column"
+        heads = ()
+        if hvia == "column":
+            heads = [env.Column(header=h, footer=f, **kw) for h, f, kw in zip(hdrs, ftrs, colkw)]
+        elif hvia == "ctor":
+            heads = hdrs
+        if t.get("grid"):
+            obj = env.Table.grid(**tkw)
+        else:
+            if t.get("sb") is not None:
+                tkw["safe_box"] = t["sb"]
+            obj = env.Table(*heads, title=_title(t, env), caption=text_of(t, "cps", "caption") or None,
+                            width=t["w"] or None, min_width=t["minw"] or None,
+                            box=None if t["box"] == "none" else getattr(env.rbox, t["box"]),
+                            show_header=t["sh"], show_footer=t["sf"], show_edge=t["edge"],
+                            show_lines=t.get("lines", False), leading=t.get("leading", 0), title_justify=t.get("tj", "center"),
+                            caption_justify=t.get("cj", "center"), highlight=bool(t.get("hl")),
+                            **_sty(t, "style", "border_style", "header_style", "footer_style", "title_style", "caption_style", "row_styles"),
+                            **tkw)
+        if hvia == "add":
+            for h, f, kw in zip(hdrs, ftrs, colkw):
+                obj.add_column(h, f, **kw)
+        elif hvia == "ctor":                # Table("a", "b"): the options are then set on the public Column records
+            for column, f, kw in zip(obj.columns, ftrs, colkw):
+                column.footer = f
+                for name, v in kw.items():
+                    setattr(column, name, v)
+        ends = set(t.get("endrows") or ([0] if t.get("endsec") else []))
         for i, row in enumerate(t["rows"]):
-            obj.add_row(*[build(c, env, reg, path + ("rows", i, j)) for j, c in enumerate(row)],
-                        end_section=bool(t.get("endsec")) and i == 0, style=(t.get("sty") or {}).get("rows", {}).get(str(i)))
+            cells = [None if c.get("omit") else build(c, env, reg, path + ("rows", i, j)) for j, c in enumerate(row)]
+            while cells and cells[-1] is None:
+                cells.pop()                 # a row shorter than the table
+            obj.add_row(*cells, end_section=i in ends, style=(t.get("sty") or {}).get("rows", {}).get(str(i)))
     elif k == "columns":
-        obj = env.Columns([build(c, env, reg, path + ("ch", i)) for i, c in enumerate(t["ch"])],
-                          padding=(t.get("pt", 0), t.get("pr", 1), t.get("pb", 0), t.get("pl", 1)), width=t["w"] or None,
+        kids = [build(c, env, reg, path + ("ch", i)) for i, c in enumerate(t["ch"])]
+        pad = _padform(dict(pt=t.get("pt", 0), pr=t.get("pr", 1), pb=t.get("pb", 0), pl=t.get("pl", 1), form=t.get("form", 4)))
+        obj = env.Columns([] if t.get("addr") else kids,
+                          padding=pad, width=t["w"] or None,
                           expand=t.get("ex", False), equal=t.get("eq", False), column_first=t.get("cf", False),
                           right_to_left=t.get("rtl", False), align=None if t.get("al", "none") == "none" else t["al"],
-                          title=text_of(t, "ts", "title") or None)
+                          title=_title(t, env))
+        if t.get("addr"):
+            for kid in kids:
+                obj.add_renderable(kid)
     elif k == "tree":
         def mk(n, p, parent):
             label = build(n["label"], env, reg, p + ("label",))
             kw = dict(expanded=n["exp"])
             if n.get("gs"):
                 kw["guide_style"] = n["gs"]
+            if n.get("tst"):
+                kw["style"] = n["tst"]
+            if n.get("hl"):
+                kw["highlight"] = True
             node = env.Tree(label, **kw) if parent is None else parent.add(label, **kw)
             for i, c in enumerate(n["ch"]):
                 mk(c, p + ("ch", i), node)
             return node
         obj = mk(t, path, None)
     elif k == "rule":
-        obj = env.Rule(text_of(t, "ts", "title"), characters=text_of(t, "chs", "chars") or "\u2500", align=t.get("al", "center"), **_sty(t, "style"))
+        title = text_of(t, "ts", "title")
+        obj = env.Rule(env.Text(title) if (t.get("tt") and title) else title, characters=text_of(t, "chs", "chars") or "\u2500",
+                       align=t.get("al", "center"), **_sty(t, "style"))
     elif k == "bar":
         obj = env.Bar(t.get("size", 100), t.get("begin", 10), t.get("end", 60), width=t.get("w") or None)
     elif k == "progressbar":
         obj = env.ProgressBar(total=t.get("total", 100), completed=t.get("completed", 40), width=t.get("w") or None,
-                              pulse=t.get("pulse", False), animation_time=0.0)
+                              pulse=t.get("pulse", False), animation_time=t.get("at", 0.0))
     else:
         raise ValueError("unknown kind %r" % k)
     if reg is not None:
@@ -603,20 +1093,45 @@ def build(t, env, reg=None, path=()):
 
 
 # ---- rendering and projection ---------------------------------------------------------------------
-def line_widths(env, renderable, W):
+def line_widths(env, renderable, W, cfg=None):
     """Console.render with W cells available -> ([distinct line cell widths, descending], number of lines) or exception name"""
-    console = env.console(W)
-    try:
-        segs = list(console.render(renderable, console.options))
-    except Exception as e:          # a crash inside Rich is an observation (C14's subject), not a verdict here
-        return None, type(e).__name__
-    text = "".join(s.text for s in segs if not s.is_control)
+    if cfg and cfg["prt"]:           # through Console.print on a recording console of width W: the printed lines
+        console = env.console(W, cfg)
+        kw = {}
+        if cfg["ojus"] != "none":
+            kw["justify"] = cfg["ojus"]
+        if cfg["oov"] != "none":
+            kw["overflow"] = cfg["oov"]
+        if cfg["onw"]:
+            kw["no_wrap"] = True
+        try:
+            console.print(renderable, **kw)
+            text = console.export_text(clear=True, styles=False)
+        except Exception as e:
+            return None, type(e).__name__
+        finally:
+            console.file.seek(0)
+            console.file.truncate()
+    else:
+        console, options = env.console_options(W, cfg)
+        try:
+            segs = list(console.render(renderable, options))
+        except Exception as e:          # a crash inside Rich is an observation (C14's subject), not a verdict here
+            return None, type(e).__name__
+        text = "".join(s.text for s in segs if not s.is_control)
     lines = text.split("\n")
     if lines and lines[-1] == "":
         lines.pop()
     cell_len = env.cell_len
     ws = [cell_len(l) for l in lines]
     return [sorted(set(ws), reverse=True), len(ws)], ""
+
+
+def sub_env(cfg):
+    """the environment a sub-tree is rendered under when it is rendered stand-alone: the same console, plain options"""
+    if not cfg:
+        return None
+    return dict(cfg, via="console", cwd=0, ojus="none", oov="none", onw=False, prt=False)
 
 
 def ladder(m, top=200, below=2):
@@ -632,7 +1147,7 @@ def ladder(m, top=200, below=2):
 def tlc_view(t):
     """strip the bulky construction-only code point lists before sending a tree to TLC"""
     if isinstance(t, dict):
-        return {k: tlc_view(v) for k, v in t.items() if k not in ("s", "ts", "cps", "chs")}
+        return {k: tlc_view(v) for k, v in t.items() if k not in ("s", "ts", "cps", "chs", "sp", "sty", "pre") and v is not None}
     if isinstance(t, list):
         return [tlc_view(x) for x in t]
     return t
@@ -645,6 +1160,8 @@ def c01_records(env, tree, widths=None, subs=True, sub_cap=10):
     obj = build(tree, env, reg)
     m = minw_py(tree)
     ws = widths or ladder(m)
+    cfg = env_of(tree)
+    subcfg = sub_env(cfg)
     env.watch()
     env.budget_log = log = []
     rs, excs = [], {}
@@ -652,7 +1169,7 @@ def c01_records(env, tree, widths=None, subs=True, sub_cap=10):
     child_ids = {oid for oid, lst in reg.items() for path, _o in lst if path == ("c",)} if "c" in tree else set()
     for W in ws:
         start = len(log)
-        r, exc = line_widths(env, obj, W)
+        r, exc = line_widths(env, obj, W, cfg)
         if r is None:
             excs[exc] = excs.get(exc, 0) + 1
             continue
@@ -681,12 +1198,14 @@ def c01_records(env, tree, widths=None, subs=True, sub_cap=10):
         pick = sorted(set(near + bs[-2:]))
         srs, sex = [], {}
         for b in pick:
-            r, exc = line_widths(env, objs[path], b)
+            r, exc = line_widths(env, objs[path], b, subcfg)
             if r is None:
                 sex[exc] = sex.get(exc, 0) + 1
                 continue
             srs.append([b, r[0], r[1]])
         if srs:
+            if subcfg and not env_is_default(subcfg):
+                node = dict(node, env=subcfg)       # the stand-alone render of the sub-tree happened under this console
             out.append(("sub:" + "/".join(map(str, path)), node, dict(p="C01", tree=tlc_view(node), rs=srs), sex))
     return out
 
@@ -712,6 +1231,8 @@ def c09_records(env, tree, avs=None, subs=True, seed=0):
     obj = build(tree, env, reg)
     out = []
     nodes = dict(subtrees(tree))
+    cfg = env_of(tree)
+    subcfg = sub_env(cfg)
     todo = [((), tree, obj, avs or avails(seed, minw_py(tree)))]
     if subs:
         seen = set()
@@ -722,16 +1243,17 @@ def c09_records(env, tree, avs=None, subs=True, seed=0):
                     sm = minw_py(nodes[path])
                     todo.append((path, nodes[path], o, sorted({0, 1, 2, sm - 1 if sm > 1 else 0, sm, sm + 1, sm + 3, sm + 8, 40, 200})))
     todo.sort(key=lambda x: json.dumps(x[0]))
-    mconsole = env.console(200)
     for path, node, o, alist in todo:
         ms, excs = [], {}
         cache = {}
+        ncfg = subcfg if path else cfg
+        mconsole = env.console(200, ncfg)
         # the available width is also given implicitly: Measurement.get(console, r) measures against console.width
         sm0 = minw_py(node)
         defaults = [(w, True) for w in sorted({max(1, sm0), sm0 + 2, 17})] if not path else []
         for a, implicit in [(x, False) for x in alist] + defaults:
             try:
-                mn, mx = env.Measurement.get(env.console(a), o) if implicit else env.Measurement.get(mconsole, o, a)
+                mn, mx = env.Measurement.get(env.console(a, ncfg), o) if implicit else env.Measurement.get(mconsole, o, a)
             except Exception as e:
                 excs[type(e).__name__] = excs.get(type(e).__name__, 0) + 1
                 continue
@@ -742,7 +1264,7 @@ def c09_records(env, tree, avs=None, subs=True, seed=0):
                     entry += [[], 0]
                     continue
                 if v not in cache:
-                    cache[v] = line_widths(env, o, v)
+                    cache[v] = line_widths(env, o, v, ncfg)
                 r, exc = cache[v]
                 if r is None:
                     excs[exc] = excs.get(exc, 0) + 1
@@ -752,12 +1274,14 @@ def c09_records(env, tree, avs=None, subs=True, seed=0):
             if not bad:
                 ms.append(entry)
         if ms:
+            if path and ncfg and not env_is_default(ncfg):
+                node = dict(node, env=ncfg)
             out.append(("top" if not path else "sub:" + "/".join(map(str, path)), node, dict(p="C09", tree=tlc_view(node), ms=ms), excs))
     return out
 
 
 # ---- signatures: shape of a (minimised) tree -------------------------------------------------------
-_CLS = {(0, 0): "z", (0, 1): "a", (0, 2): "W", (1, 1): "s", (1, 2): "U", (2, 0): "n", (3, 0): "t"}
+_CLS = {(0, 0): "z", (0, 1): "a", (0, 2): "W", (1, 1): "s", (1, 2): "U", (2, 0): "n", (3, 0): "t", (1, 0): "b"}
 
 
 def _csig(cs, cap=6):
@@ -765,9 +1289,23 @@ def _csig(cs, cap=6):
     return s if len(s) <= cap else s[:cap] + "+"
 
 
-def shape(t):
+def shape(t, _col=None):
+    """shape of a recipe for signatures.  A colour system in the root's environment is shown on the bars (the only renderables it
+    changes the width of): bar[color], progressbar[color,pulse]"""
+    if _col is None:
+        ev = env_of(t)
+        _col = "color" if (ev and ev["color"] in ("truecolor", "standard")) else ""
+    return _shape(t, _col)
+
+
+def _has_bar(t):
+    return any(n["k"] in ("bar", "progressbar") for _, n in subtrees(t))
+
+
+def _shape(t, _col):
     k = t["k"]
     o = []
+    shape = lambda x: _shape(x, _col)
     if k == "txt":
         o.append(_csig(t["cs"]))
         if t.get("ov", "none") != "none":
@@ -778,6 +1316,14 @@ def shape(t):
             o.append(t["jus"])
         if t.get("src") == "str":
             o.append("str")
+        if t.get("sp") or t.get("st"):
+            o.append("styled")
+        if t.get("tab"):
+            o.append("tab%d" % t["tab"])
+        if t.get("end", "nl") != "nl":
+            o.append("end=" + t["end"])
+        if t.get("pre"):
+            o.append("after=" + "+".join(sorted({op[0] for op in t["pre"]["ops"]})))
         return "txt[%s]" % ",".join(o)
     if k == "panel":
         if t["title"]:
@@ -788,6 +1334,10 @@ def shape(t):
             o.append("w")
         if not t["ex"]:
             o.append("fit")
+        if t.get("tt") and t["title"]:
+            o.append("ttext" + ("-" + t["ttj"] if t.get("ttj") else ""))
+        if t.get("sb") is False:
+            o.append("unsafe")
         return "panel[%s](%s)" % (",".join(o), shape(t["c"]))
     if k == "padding":
         if not t["ex"]:
@@ -798,9 +1348,9 @@ def shape(t):
             o.append("w")
         return "%s[%s](%s)" % (k, ",".join(o), shape(t["c"]))
     if k in ("styled", "opaque", "cast"):
-        return "%s(%s)" % (k, shape(t["c"]))
+        return "%s(%s)" % (t.get("impl") or k, shape(t["c"]))
     if k == "group":
-        return "group(%s)" % ",".join(shape(c) for c in t["ch"])
+        return "%s(%s)" % (t.get("impl") or "group", ",".join(shape(c) for c in t["ch"]))
     if k == "table":
         if t["box"] != "none":
             o.append("box")
@@ -823,6 +1373,14 @@ def shape(t):
             o.append("ratio")
         if t["w"] or t["minw"] or any(c["w"] or c["minw"] or c["nw"] for c in t["cols"]):
             o.append("unfree")
+        if any(c.get("ov") == "ignore" for c in t["cols"]):
+            o.append("colignore")
+        if t.get("grid"):
+            o.append("grid")
+        if t.get("hvia", "add") != "add" and not t.get("grid"):
+            o.append("hvia=" + t["hvia"])
+        if any(c.get("omit") for r in t["rows"] for c in r):
+            o.append("shortrows")
         cells = [shape(c) for r in t["rows"] for c in r]
         return "table[%s;%dx%d](%s)" % (",".join(o), len(t["cols"]), len(t["rows"]), ",".join(cells))
     if k == "columns":
@@ -848,8 +1406,33 @@ def shape(t):
             o.append("w")
         if t.get("pulse"):
             o.append("pulse")
+        if _col:
+            o.append(_col)
         return "%s[%s]" % (k, ",".join(o))
     return k
+
+
+def env_sig(tree):
+    """the non-default part of a recipe's environment, for signatures ('' when everything is default)"""
+    e = env_of(tree)
+    if env_is_default(e):
+        return ""
+    o = []
+    if e["via"] != "console":
+        o.append(e["via"])
+    for f in ("prt", "asc", "legacy", "onw"):
+        if e[f]:
+            o.append("print" if f == "prt" else f)
+    if not e["safe"]:
+        o.append("unsafe")
+    if not e["hl"]:
+        o.append("nohl")
+    for f in ("color", "ojus", "oov"):
+        if e[f] != "none" and not (f == "color" and e[f] in ("truecolor", "standard") and _has_bar(tree)):
+            o.append("%s=%s" % (f, e[f]))
+    if e["tab"] != 8:
+        o.append("tab=%d" % e["tab"])
+    return " env=" + ",".join(o) if o else ""
 
 
 # ---- one-step reductions for delta debugging (every round is judged by TLC) ------------------------
@@ -924,24 +1507,31 @@ def reductions(tree):
                     out.append(_set(tree, path, m))
         # options back to defaults, one at a time
         defaults = dict(
-            txt=dict(ov="none", nw=False, jus="none", src="text"),
-            panel=dict(pl=0, pr=0, pt=0, pb=0, w=0, ex=True, ta="center", box="ROUNDED"),
-            padding=dict(pl=0, pr=0, pt=0, pb=0, ex=True, form=4),
-            align=dict(w=0, al="left", pad=True), constrain=dict(w=0), group=dict(fit=True),
+            txt=dict(ov="none", nw=False, jus="none", src="text", sp=None, st=None, tab=None, end="nl", pre=None),
+            panel=dict(pl=0, pr=0, pt=0, pb=0, w=0, ex=True, ta="center", box="ROUNDED", tt=False, ttj=None, sb=None, fitcm=False, form=4, sty=None),
+            padding=dict(pl=0, pr=0, pt=0, pb=0, ex=True, form=4, sty=None),
+            align=dict(w=0, al="left", pad=True, cm=False, sty=None), constrain=dict(w=0), group=dict(fit=True, impl=None),
+            styled=dict(impl=None),
             table=dict(box="none", edge=True, lines=False, leading=0, sh=False, sf=False, pl=0, pr=0, pt=0, pb=0, pe=True, cp=False,
-                       ex=False, w=0, minw=0, tj="center", endsec=False),
-            columns=dict(w=0, pl=0, pr=0, pt=0, pb=0, ex=False, eq=False, cf=False, rtl=False, al="none"),
-            tree=dict(exp=True, gs=""), rule=dict(al="center"), bar=dict(w=0, begin=0, end=100),
-            progressbar=dict(w=0, total=100, completed=100, pulse=False)).get(k, {})
+                       ex=False, w=0, minw=0, tj="center", endsec=False, form=4, cj="center", sb=None, hl=False, hvia="add", endrows=None,
+                       grid=False, tt=False, ttj=None, sty=None),
+            columns=dict(w=0, pl=0, pr=0, pt=0, pb=0, ex=False, eq=False, cf=False, rtl=False, al="none", form=4, addr=False, tt=False),
+            tree=dict(exp=True, gs="", tst=None, hl=False), rule=dict(al="center", tt=False, sty=None), bar=dict(w=0, begin=0, end=100, size=100),
+            progressbar=dict(w=0, total=100, completed=100, pulse=False, at=0.0)).get(k, {})
         changed = [f for f, v in defaults.items() if n.get(f, v) != v]
+        def _reset(m, f):
+            if defaults[f] is None:
+                m.pop(f, None)
+            else:
+                m[f] = defaults[f]
         if len(changed) > 1:                                        # all options at once (saves rounds)
             m = _clone(n)
             for f in changed:
-                m[f] = defaults[f]
+                _reset(m, f)
             out.append(_set(tree, path, m))
         for f in changed:
             m = _clone(n)
-            m[f] = defaults[f]
+            _reset(m, f)
             out.append(_set(tree, path, m))
         if k == "table":
             m = _clone(n)
@@ -968,7 +1558,15 @@ def reductions(tree):
                     m = _clone(n); set_text(m, "t", fs, fc); out.append(_set(tree, path, m))
         if k == "rule" and text_of(n, "chs", "chars") != "-":
             m = _clone(n); set_text(m, "-", "chs", "chars"); out.append(_set(tree, path, m))
-        if k == "txt":
+        if k == "txt" and n.get("pre") and len(n["pre"]["ops"]) > 1:
+            for i in range(len(n["pre"]["ops"])):
+                m = _clone(n); del m["pre"]["ops"][i]; out.append(_set(tree, path, m))
+        if k == "txt" and n.get("pre"):
+            s0 = "".join(map(chr, n["pre"]["s0"]))
+            if len(s0) > 2:
+                for c in (s0[:len(s0) // 2], s0[len(s0) // 2:]):
+                    m = _clone(n); m["pre"]["s0"] = [ord(ch) for ch in c]; out.append(_set(tree, path, m))
+        elif k == "txt":
             s = text_of(n)
             cands = []
             if len(s) > 1:
@@ -982,6 +1580,21 @@ def reductions(tree):
             for c in cands:
                 if c != s:
                     m = _clone(n); set_text(m, c); out.append(_set(tree, path, m))
+    # audit-1: the environment of the root - dropped altogether, then field by field; every candidate that lost it (a hoisted
+    # sub-tree, a dropped root wrapper) is also tried with it
+    e = env_of(tree)
+    if e and not env_is_default(e):
+        bare = _clone(tree)
+        bare.pop("env", None)
+        out.insert(0, bare)
+        for f, v in ENV_DEFAULT.items():
+            if f != "cwd" and e[f] != v:
+                m = _clone(tree)
+                m["env"] = dict(e, **{f: v})
+                if env_is_default(m["env"]):
+                    m.pop("env")
+                out.append(m)
+        out += [dict(c, env=dict(e)) for c in out if "env" not in c]
     seen, uniq = set(), []
     for c in out:
         key = json.dumps(c, sort_keys=True)
@@ -1064,7 +1677,13 @@ def model_part(chk, tlc):
             key = json.dumps(b["tree"], sort_keys=True)
             if key not in seen:
                 seen.add(key)
-                trees.append(complete(b["tree"], salt=len(trees)))
+                t = complete(b["tree"], salt=len(trees))
+                if len(trees) % 3 == 2:             # audit-1: every third TLC-generated tree is rendered under a non-default environment
+                    import random
+                    e = gen_env(random.Random(len(trees)))
+                    if not env_is_default(e):
+                        t["env"] = e
+                trees.append(t)
     behs, r2 = tlc.behaviours("MC_Layout", cfg_text=_MC_CFG % (2, 3, "full", "CONSTRAINT Emit"))
     chk.add_tlc(r2, "M2")
     take(behs)
@@ -1166,22 +1785,25 @@ def handle(chk, tlc, pid, items, verdicts, sig_extra, cap):
         return
     # a rejected record with a rejected proper sub-tree (same clause) is attributed to the sub-tree (the smaller witness)
     keys = {}
+
+    def _key(t):
+        return json.dumps({f: x for f, x in tlc_view(t).items() if f != "env"}, sort_keys=True)
     for origin, tree, rec, v in rejected:
-        keys.setdefault(v.split(" ")[0], set()).add(json.dumps(tlc_view(tree), sort_keys=True))
+        keys.setdefault(v.split(" ")[0], set()).add(_key(tree))
     minimal = []
     for origin, tree, rec, v in rejected:
         clause = v.split(" ")[0]
-        own = json.dumps(tlc_view(tree), sort_keys=True)
+        own = _key(tree)
         subs_rej = False
         for path, n in subtrees(tree):
-            if path and json.dumps(tlc_view(n), sort_keys=True) in keys[clause] and json.dumps(tlc_view(n), sort_keys=True) != own:
+            if path and _key(n) in keys[clause] and _key(n) != own:
                 subs_rej = True
                 break
         if not subs_rej:
             minimal.append((origin, tree, rec, v))
     seen, uniq = set(), []
     for origin, tree, rec, v in sorted(minimal, key=lambda x: size(x[1])):
-        key = (v.split(" ")[0], shape(tree))
+        key = (v.split(" ")[0], shape(tree), env_sig(tree))
         if key not in seen:
             seen.add(key)
             uniq.append((origin, tree, rec, v))
@@ -1201,5 +1823,6 @@ def handle(chk, tlc, pid, items, verdicts, sig_extra, cap):
     for (origin, tree0, rec0, v0), (mt, mv, mrec) in zip(chosen, mins):
         word, kv = parse_verdict(mv)
         sig = "%s %s %s" % (word, shape(mt), sig_extra(word, kv))
+        sig = sig.strip() + env_sig(mt)
         chk.reject(sig.strip(), "%s  (minimised from a %s record rejected with '%s')" % (mv, origin.split(":")[0], v0),
                    dict(tree=mt, record=mrec, verdict=mv, original=dict(tree=tree0, verdict=v0, origin=origin)))
